@@ -36,9 +36,10 @@
 (***************************************************************************)
 EXTENDS DKGProps
 
-CONSTANT Ids            \* sequence of identity names of one decryption trigger
+CONSTANT Rounds         \* sequence of identity lists: one decryption trigger (round) per list; the
+                        \* lists may overlap ({A} then {A,B}); a single round is <<ids>>
 
-G == INSTANCE Gossip WITH N <- N, T <- T, Ids <- Ids, Flavour <- "core"
+G == INSTANCE Gossip WITH N <- N, T <- T, Rounds <- Rounds, Flavour <- "core"
 
 ASSUME PhaseLen >= 2 /\ Cardinality(Byz) <= 1
 
@@ -150,10 +151,10 @@ E2EValidate(hv, nd, j, m) ==
     ELSE IF hv.mat[m.from] # hv.mat[j] THEN "reject"
     ELSE G!Validate(nd, m)
 
-(* KeyShareHandler.handleEvent -> ConstructDecryptionKeyShares *)
-E2ETrigger(hv, nd, i) ==
+(* KeyShareHandler.handleEvent -> ConstructDecryptionKeyShares for the trigger of round r *)
+E2ETrigger(hv, nd, i, r) ==
     IF i \notin hv.succ THEN [nd |-> nd, out |-> <<>>, err |-> "dkgfailed"]
-    ELSE LET r == G!TriggerNode(nd, i) IN [nd |-> r.nd, out |-> r.out, err |-> ""]
+    ELSE LET tr == G!TriggerNode(nd, i, r) IN [nd |-> tr.nd, out |-> tr.out, err |-> ""]
 
 (* one delivery: validator, on Accept the handlers *)
 E2EDeliver(hv, nd, j, m) ==
@@ -167,8 +168,9 @@ E2EPublish(nd, i, out) ==
     LET p == G!Publish(nd, i, out, 1) IN
     [pk |-> [q \in {x \in DOMAIN p.pk : x.d \in Part} |-> p.pk[q]], prod |-> p.prod]
 
-(* losses of share messages: at most MaxLoss per receiver, and never more than leaves the receiver T
-   shares (its own included) from the triggered nodes that hold a share *)
-DropBudget(hv, wt) == Cardinality(wt \cap hv.succ) - T
+(* losses of share messages: at most MaxLoss per receiver and round, and never more than leaves the
+   receiver T shares (its own included) from the nodes triggered for the round that hold a share;
+   wt[r] = the nodes that will be triggered for round r *)
+DropBudget(hv, wt, r) == Cardinality(wt[r] \cap hv.succ) - T
 
 =============================================================================
